@@ -85,6 +85,14 @@ same lines, they keep their last honest result.
   block-store family run under C12 as well.
 * C17-r2m3 (a childless Kauri node of height 2 takes the inner-node branch): the Kauri node is run
   in every position of every tree shape with n <= 13 under C17.
+* Round 3 (after the repairs of the second day; 27 changes): C03-r3m2 (VerifyAnyQC returns after the
+  view/hash comparison, skipping the verification of the block's own QC — a change that only became
+  possible with repair 7d9bd97): proposals whose block carries a forged twin of the aggregate QC's
+  high QC, in the certificate and the replica family. C06-r3m3 (commitInner goes on without an
+  ancestor, written against C06 this time): the lagging-replica cluster runs also run under C06.
+  C09-r3m1 (the voting machine's clean-up compares the vote being processed instead of the stored
+  entries — different only when verification is ASYNCHRONOUS): the replica harness verified
+  synchronously only; see §10/C09 for the asynchronous mode added for it.
 * C08-m2 (`signedBy` accepts multi-signer view signatures) was missed: the timeout injection got
   a `multi-viewsig` kind (the sender's genuine signature combined with another replica's).
 * C10-m3 (the RequestBlock handler converts the hash field with a slice-to-array conversion that
